@@ -807,6 +807,62 @@ func ruleRestValueConstant(c *Ctx, dv *dev) {
 	_ = token.NoPos
 }
 
+// limitChosenBySign: the divisor is math.Abs of a value picked by the sign of the raw position: a phi whose edge from the
+// `raw < 0` side carries .Minimum and whose other edge carries .Maximum.
+func limitChosenBySign(vw *FnView, den ssa.Value) bool {
+	v := den
+	abs := false
+	for i := 0; i < 6; i++ {
+		switch x := v.(type) {
+		case *ssa.Convert:
+			v = x.X
+			continue
+		case *ssa.Call:
+			if callee := x.Call.StaticCallee(); callee != nil && callee.Name() == "Abs" && pkgPathOf(callee) == "math" && len(x.Call.Args) == 1 {
+				abs = true
+				v = x.Call.Args[0]
+				continue
+			}
+		}
+		break
+	}
+	phi, ok := v.(*ssa.Phi)
+	if !ok || !abs || len(phi.Edges) != 2 {
+		return false
+	}
+	okNeg, okPos := false, false
+	for i, e := range phi.Edges {
+		pred := phi.Block().Preds[i]
+		atoms := vw.GuardsAt(pred)
+		if ifi, isIf := pred.Instrs[len(pred.Instrs)-1].(*ssa.If); isIf {
+			atoms = append(atoms, Atom{Cond: vw.Term(ifi.Cond), Taken: pred.Succs[0] == phi.Block()})
+		}
+		sign := ""
+		for _, a := range atoms {
+			op, l, r, ok := normAtom(a)
+			if !ok || !strings.Contains(l.String(), "Event.Value") {
+				continue
+			}
+			if k, isK := r.IsIntConst(); isK && k == 0 {
+				switch op {
+				case "<":
+					sign = "neg"
+				case ">=":
+					sign = "nonneg"
+				}
+			}
+		}
+		et := vw.Term(e).String()
+		switch {
+		case sign == "neg" && strings.HasSuffix(et, ".Minimum"):
+			okNeg = true
+		case sign == "nonneg" && strings.HasSuffix(et, ".Maximum"):
+			okPos = true
+		}
+	}
+	return okNeg && okPos
+}
+
 // ruleNormalisation: the raw value is divided by |min| when negative and by |max| otherwise,
 // so that positions within the reported range normalise into [-1, 1] (necessary for every later stage,
 // in particular for the Control Change value byte staying within 0..127).
@@ -858,6 +914,9 @@ func ruleNormalisation(c *Ctx, dv *dev, rule string) {
 				okNeg = true
 			case sign == "nonneg" && strings.Contains(den, ".Maximum"):
 				okPos = true
+			case sign == "" && limitChosenBySign(vw, bo.Y):
+				// one division by a limit that was chosen first: |Minimum| for a negative raw value, Maximum otherwise
+				okNeg, okPos = true, true
 			case sign == "":
 				bad = "the raw position is divided by " + den + " without distinguishing negative from non-negative positions: on two's-complement axes (min = -128, max = 127) the minimum end stop normalises below -1.0 and the Control Change value byte leaves 0..127"
 			default:
